@@ -14,6 +14,10 @@ use tiny_http::Response;
 
 pub struct C20;
 
+/// The statement does not say how long the idle period is (5 s today).  Thread reclamation
+/// is judged only after an idle time far above any sensible value; virtual time is free.
+const LONG_IDLE_MS: u64 = 120_000;
+
 #[derive(Clone, Debug, PartialEq)]
 pub struct Burst {
     pub n: usize,
@@ -146,7 +150,7 @@ pub fn body(sc: Sc, obs: Arc<Mutex<O>>) {
         if b.idle_ms > 0 {
             ctl::sleep(Duration::from_millis(b.idle_ms));
             ctl::settle();
-            if b.idle_ms > 5000 {
+            if b.idle_ms >= LONG_IDLE_MS {
                 let live = ctl::live_threads();
                 obs.lock().unwrap().after_idle.push((live, open.len(), b.idle_ms));
             }
@@ -277,7 +281,7 @@ pub fn judge(sc: &Sc, o: &O, res: &RunResult) -> Vec<(String, String)> {
         if *live > o.baseline + *open {
             f.push((
                 "threads-not-reclaimed".into(),
-                format!("{} threads alive after {} ms of idleness with {} open connections; baseline was {}", live, idle, open, o.baseline),
+                format!("{} threads alive after {} ms of idleness with {} open connections; baseline was {} (surplus workers were not reclaimed)", live, idle, open, o.baseline),
             ));
         }
     }
@@ -292,7 +296,7 @@ fn items(tier: Tier) -> &'static Vec<(Sc, u32)> {
         let thorough = tier == Tier::Thorough;
         let mut v = Vec::new();
         let ns: Vec<usize> = if thorough { vec![1, 4, 5, 8] } else { vec![1, 5, 8] };
-        let idles: Vec<u64> = if thorough { vec![0, 4900, 5100, 11000] } else { vec![0, 4900, 5100] };
+        let idles: Vec<u64> = if thorough { vec![0, 4900, 5100, 11000, LONG_IDLE_MS] } else { vec![0, 4900, 5100, LONG_IDLE_MS] };
         // histories at the default schedule
         let mut singles = Vec::new();
         for &n in &ns {
@@ -314,7 +318,7 @@ fn items(tier: Tier) -> &'static Vec<(Sc, u32)> {
             }
         }
         if thorough {
-            let few: Vec<Burst> = singles.iter().filter(|b| b.n >= 5 && b.idle_ms != 4900).cloned().collect();
+            let few: Vec<Burst> = singles.iter().filter(|b| b.n >= 5 && b.idle_ms != 4900 && b.idle_ms != 11000).cloned().collect();
             for a in &few {
                 for b in &few {
                     for c in &few {
@@ -382,9 +386,9 @@ impl Check for C20 {
     }
     fn rule(&self, tier: Tier) -> String {
         format!(
-            "histories of 1..{} bursts of N in {:?} connections (each answered; closed or left open) followed by {:?} ms of virtual idleness, at the default schedule; server drop {{before any connection, racing with a connecting client, with a request queued but never received, with a request handed out and answered afterwards, while surplus workers are retiring, at the end}} after histories {{none, 1 closed, 6 closed, 2 open}} with all schedules of at most {} deviations (strict; one less after the longer histories) around the drop; a burst of 1/2/5 arriving exactly when the surplus workers of a burst of 5/6/8 reach their 5 s idle timeout, same bound; {} scenarios; oracle: after the drop and quiescence a new connect is refused in every schedule, a handed-out request is still answered and its bytes reach the client, every burst is answered completely, threads alive after more than 5 s of idleness <= baseline + open connections; non-trivial = all",
+            "histories of 1..{} bursts of N in {:?} connections (each answered; closed or left open) followed by {:?} ms of virtual idleness, at the default schedule; server drop {{before any connection, racing with a connecting client, with a request queued but never received, with a request handed out and answered afterwards, while surplus workers are retiring, at the end}} after histories {{none, 1 closed, 6 closed, 2 open}} with all schedules of at most {} deviations (strict; one less after the longer histories) around the drop; a burst of 1/2/5 arriving exactly when the surplus workers of a burst of 5/6/8 reach their 5 s idle timeout, same bound; {} scenarios; oracle: after the drop and quiescence a new connect is refused in every schedule, a handed-out request is still answered and its bytes reach the client, every burst is answered completely, threads alive after 120 s of idleness (far above any sensible idle period; the statement names none) <= baseline + open connections; non-trivial = all",
             if tier == Tier::Thorough { 3 } else { 2 }, if tier == Tier::Thorough { vec![1, 4, 5, 8] } else { vec![1, 5, 8] },
-            if tier == Tier::Thorough { vec![0, 4900, 5100, 11000] } else { vec![0, 4900, 5100] }, if tier == Tier::Thorough { 2 } else { 1 }, items(tier).len()
+            if tier == Tier::Thorough { vec![0, 4900, 5100, 11000, LONG_IDLE_MS] } else { vec![0, 4900, 5100, LONG_IDLE_MS] }, if tier == Tier::Thorough { 2 } else { 1 }, items(tier).len()
         )
     }
     fn assumptions(&self) -> Vec<String> {
